@@ -198,43 +198,23 @@ func ParseJWS(token []byte, f PublicKeyFunc) (payload []byte, err error) {
 	if err != nil {
 		return nil, err
 	}
-	headers, body, _, err := jws.SplitCompact(token)
+	// exactly one signature: a JWS (JSON serialization) with several signatures is not supported
+	signatures := message.Signatures()
+	if len(signatures) != 1 {
+		return nil, ErrorInvalidNumberOfSignatures
+	}
+	headers := signatures[0].ProtectedHeaders()
+	alg := headers.Algorithm()
+	if !jwx.IsAlgorithmSupported(alg) {
+		return nil, fmt.Errorf("token signing algorithm is not supported: %s", alg)
+	}
+	key, err := f(headers.KeyID())
 	if err != nil {
 		return nil, err
 	}
-	signatures := message.Signatures()
-	for i := range signatures {
-		signature := signatures[i]
-		// Get and check the algorithm
-		alg := signature.ProtectedHeaders().Algorithm()
-		if !jwx.IsAlgorithmSupported(alg) {
-			return nil, fmt.Errorf("token signing algorithm is not supported: %s", alg)
-		}
-		// Get the verifier for the algorithm
-		verifier, err := jws.NewVerifier(alg)
-		if err != nil {
-			return nil, err
-		}
-		// Get the key id, and get the associated key
-		kid := signature.ProtectedHeaders().KeyID()
-		key, err := f(kid)
-		if err != nil {
-			return nil, err
-		}
-		// This seems an awkward way of appending 3 arrays.
-		var payload []byte
-		parts := [][]byte{headers, []byte("."), body}
-		for _, part := range parts {
-			payload = append(payload, part...)
-		}
-		err = verifier.Verify(payload, signature.Signature(), key)
-		if err != nil {
-			return nil, err
-		}
-	}
-
-	body = message.Payload()
-	return body, nil
+	// let the library verify the signature over the signing input of the message it parsed (protected header and
+	// payload), whatever the serialization, and return the payload that was verified
+	return jws.Verify(token, jws.WithKey(alg, key))
 }
 
 func SignJWS(ctx context.Context, payload []byte, protectedHeaders map[string]interface{}, privateKey crypto.Signer, detachedPayload bool) (string, error) {
